@@ -153,6 +153,21 @@ func Reached(tag string) { reached[tag] = true }
 // max entries) created in the given packages.  Natively the runtime picks the order.
 func SymbolicMapOrder(max int, pkgs ...string) {}
 
+var setupCache = map[string]any{}
+
+// Setup runs a concrete, deterministic constructor once per key and returns its result.  Under
+// the symbolic executor the constructed state persists across paths (it is built outside the
+// per-path undo journal), which avoids rebuilding expensive concrete state on every path.
+// The result must not depend on symbolic input.
+func Setup(key string, f func() any) any {
+	if v, ok := setupCache[key]; ok {
+		return v
+	}
+	v := f()
+	setupCache[key] = v
+	return v
+}
+
 // Symbolic reports whether the harness runs under the symbolic executor.
 func Symbolic() bool { return false }
 
